@@ -349,6 +349,76 @@ func filterRead(t *ref.Type, v ref.V, n *node, m fmode, base baselines) ref.V {
 	return v
 }
 
+// mergeRead is the content of an object that held cur and then read the
+// complete encoding of v under the mask node n: a field that is on the wire and
+// selected is replaced by what a fresh child reads under the sub-mask, every
+// other field keeps what the object held.
+func mergeRead(t *ref.Type, cur, v *ref.StructV, n *node, m fmode, base baselines) *ref.StructV {
+	all := n == nil || (n.terminal && !m.black)
+	out := ref.NewStruct()
+	for _, f := range t.Struct.Fields {
+		if fv, has := v.F[f.ID]; has && fv != nil {
+			sel, c := all, (*node)(nil)
+			if !all && !n.terminal {
+				sel, c = n.child(fkey(f.ID), m.black)
+			}
+			if sel {
+				out.F[f.ID] = filterRead(f.Type, fv, c, m, base)
+				continue
+			}
+		}
+		if old, ok := cur.F[f.ID]; ok && old != nil {
+			out.F[f.ID] = old
+		}
+	}
+	return out
+}
+
+// writable: every union inside the value has exactly one member (a generated
+// union refuses to be written otherwise).
+func writable(t *ref.Type, v ref.V, top bool) bool {
+	if v == nil {
+		return true
+	}
+	switch t.Kind {
+	case ref.List, ref.Set:
+		for _, e := range v.(*ref.ListV).E {
+			if !writable(t.Elem, e, false) {
+				return false
+			}
+		}
+	case ref.Map:
+		x := v.(*ref.MapV)
+		for i := range x.K {
+			if !writable(t.Key, x.K[i], false) || !writable(t.Elem, x.E[i], false) {
+				return false
+			}
+		}
+	case ref.Struct:
+		x := v.(*ref.StructV)
+		if t.Struct.Kind == "union" && len(x.F) != 1 {
+			return false
+		}
+		for id, fv := range x.F {
+			if f := t.Struct.Field(id); f == nil || !writable(f.Type, fv, false) {
+				return false
+			}
+		}
+	}
+	return true
+}
+
+// containsStruct: the type is, or holds elements / values that are, a plain struct.
+func containsStruct(t *ref.Type) bool {
+	switch t.Kind {
+	case ref.Struct:
+		return t.Struct.Kind == "struct"
+	case ref.List, ref.Set, ref.Map:
+		return containsStruct(t.Elem)
+	}
+	return false
+}
+
 // canon drops optional fields that hold their declared default (they count as
 // unset: the generated writer does not emit them).  Nothing else is changed.
 func canon(t *ref.Type, v ref.V) ref.V {
@@ -576,8 +646,9 @@ type walker struct {
 }
 
 type selStat struct {
-	strictLast bool // a container of size >= 3 with a strict, non-empty selection that includes the last element
-	depth      int  // deepest mask node applied to a value
+	strictLast  bool // a container of size >= 3 with a strict, non-empty selection that includes the last element
+	depth       int  // deepest mask node applied to a value
+	structBelow bool // a struct below the root is written under a sub-mask of its own (the writer attaches it to the child object)
 }
 
 func (w *walker) walk(t *ref.Type, v ref.V, n *node, prefix []pstep, depth int) {
@@ -590,6 +661,9 @@ func (w *walker) walk(t *ref.Type, v ref.V, n *node, prefix []pstep, depth int) 
 	ext := func(s pstep) []pstep { return append(append([]pstep{}, prefix...), s) }
 	switch t.Kind {
 	case ref.Struct:
+		if depth > 0 {
+			w.maxSel.structBelow = true
+		}
 		x := v.(*ref.StructV)
 		for _, id := range x.IDs() {
 			f := t.Struct.Field(id)
